@@ -1,4 +1,95 @@
+/-
+C01 — single-model queries compute exactly the defined aggregates.
+`genSingle` is the model of SQLGenerator.generate (tied to /repo by the correspondence run of
+harness/props/c01.py); `Spec` is the reference semantics.  All statements quantify over EVERY
+database content `db` (any number of rows, NULLs, duplicates, empty tables).
+-/
 import SideVerif.Layer.GenSingle
-import SideVerif.Layer.Spec
+import SideVerif.Proofs.SpecFlat
 namespace SideVerif
+open Sql
+
+/-- The plan generated for `(m, q)` is *covered*: it is one CTE plus one aggregating SELECT whose
+fusion is, syntactically, the flat form of the reference semantics.  `covered` is decidable and is
+evaluated by the driver on every generated case (evidence: `cases_inside_theorem_C01_grouped`). -/
+structure Covered (m : SModel) (q : Query) (p : Plan) (c : Cte) : Prop where
+  gen : genSingle m q = .ok p
+  fusable : p.fusable c = true
+  same : p.fuse c = Spec.flat m q
+
+/-- **Grouped queries.** One row per distinct combination of the requested dimension values among
+the rows satisfying the filters; every simple metric is its declared aggregation of its expression
+over exactly the rows of the group (and of its own filters) — for all table contents. -/
+theorem C01_grouped {m : SModel} {q : Query} {p : Plan} {c : Cte} (h : Covered m q p c)
+    (db : DB) (hpk : Spec.PkOK m (c.source.rows db)) :
+    p.body db = Spec.grouped m q (c.source.rows db) := by
+  rw [body_fuse p c db h.fusable, h.same, Spec.grouped_eq_flat m q _ hpk]
+
+/-- exactly one column per requested dimension and metric, dimensions first, in request order,
+named by field name or custom alias -/
+theorem C01_columns {m : SModel} {q : Query} {p : Plan} {c : Cte} (h : Covered m q p c) :
+    p.columns = Spec.columns m q := by
+  obtain ⟨_, _, _, _, _, h6, h7, h8⟩ := fusable_parts h.fusable
+  have hs := h.same
+  unfold Plan.fuse Spec.flat at hs
+  have hk := congrArg (fun fq : FlatQuery => fq.keys.map (·.alias)) hs
+  have ha := congrArg (fun fq : FlatQuery => fq.aggs.map (·.name)) hs
+  simp only [filterMap_alias c p.dims h7, List.map_map] at hk
+  have hn := filterMap_name c p.mets h8
+  have e1 : p.dims.map (·.alias) = (Spec.effectiveDims m q).map (Spec.outName q) := by
+    rw [hk]; rfl
+  have e2 : p.mets.map (·.2) = (Spec.measuresOf m q).map (·.2) := by
+    simp only [List.map_map] at ha
+    rw [← hn, ha]
+    apply List.map_congr_left
+    intro a _
+    exact Spec.flatAgg_name m a.1 a.2
+  unfold Plan.columns Spec.columns
+  simp only [h6, Bool.false_eq_true, if_false]
+  rw [e1, e2]
+
+/-- ORDER BY / LIMIT / OFFSET: the result is the offset/limit slice of the ordered body -/
+theorem C01_slice (p : Plan) (db : DB) :
+    p.eval db = sliceRows p.offset p.limit
+      (if p.order.isEmpty then p.body db else (p.body db).mergeSort (rowLe p.order)) ∧
+    ((p.body db).mergeSort (rowLe p.order)).Perm (p.body db) :=
+  ⟨rfl, List.mergeSort_perm _ _⟩
+
+/-- COUNT(*) and distinct-key metrics are insensitive to how the key is written, given `PkOK` -/
+theorem C01_metric_value (m : SModel) (ms : Measure) (n : String) (g : List Row) (hpk : Spec.PkOK m g) :
+    (Spec.flatAgg m ms n).eval g = Spec.metricValue m ms g := Spec.metric_eq m ms n g hpk
+
+/-! ### non-vacuity and the known defect F1 (limit = 0) -/
+
+def exModel : SModel :=
+  { name := "o", source := .table "t", pk := ["id"],
+    dims := [{ name := "s" }],
+    measures := [{ name := "rev", agg := .sum, sql := some (.col "amt") },
+                 { name := "n", agg := .count, filters := [.bin .gt (.col "amt") (.lit (.num 0))] }] }
+
+def exQuery : Query := { metrics := ["o.rev", "o.n"], dims := ["o.s"] }
+
+def exDb : DB := fun t => if t == "t" then
+  [ [("id", .num 1), ("s", .str "a"), ("amt", .num 5)],
+    [("id", .num 2), ("s", .str "a"), ("amt", .null)],
+    [("id", .num 3), ("s", .null), ("amt", .num (-2))],
+    [("id", .num 4), ("s", .null), ("amt", .num 7)] ] else []
+
+/-- the hypotheses of `C01_grouped` are met by a concrete model, query and a table with NULLs -/
+def exPlan : Plan := match genSingle exModel exQuery with | .ok p => p | .error _ => default
+def exCte : Cte := exPlan.ctes.headD default
+
+example : (match genSingle exModel exQuery with | .ok p => p == exPlan | .error _ => false) = true ∧
+    exPlan.ctes = [exCte] ∧ exPlan.fusable exCte = true ∧ exPlan.fuse exCte = Spec.flat exModel exQuery := by
+  refine ⟨?_, ?_, ?_, ?_⟩ <;> decide
+
+/-- F1: with `limit = 0` the generated plan has no LIMIT (Python truthiness), so it returns every
+group, whereas the reference semantics returns none. -/
+theorem C01_limit_zero_counterexample :
+    (match genSingle exModel { exQuery with limit := some 0 } with
+     | .ok p => p.limit == none && (p.eval exDb).length == 2
+     | .error _ => false) = true ∧
+    (Spec.finish exModel { exQuery with limit := some 0 } (Spec.grouped exModel exQuery (exDb "t"))).length = 0 := by
+  constructor <;> decide
+
 end SideVerif
